@@ -44,8 +44,8 @@ def registries(ctx: Ctx):
         for c in concrete_types:
             site = f"{DEF}::TAG_NAME_TO_PARAMETER_TYPE_OBJECT[{c!r}]"
             if c not in table:
-                ctx.refuted("R1.1", site, f"concrete parameter type {c} has no entry: <{c}> elements (which the writer emits) fail to load",
-                            where=f"space_packet_parser/{DEF}:{reg.lineno}")
+                ctx.unknown("R1.1", site, f"concrete parameter type {c} has no entry in the tag table recognised here (whether <{c}> elements "
+                                          f"load is decided by the end-to-end documents R1.e / R1.e2)", where=f"space_packet_parser/{DEF}:{reg.lineno}")
             else:
                 ctx.decide(table[c] == c, "R1.1", site, "tag = class name",
                            f"tag {c!r} is mapped to class {table[c]}", where=f"space_packet_parser/{DEF}:{reg.lineno}")
@@ -542,7 +542,7 @@ def mutants(prog):
             out.append((name, rel, new, expect))
 
     enc, pt, par = "xtce/encodings.py", "xtce/parameter_types.py", "xtce/parameters.py"
-    sub(DEF, "registry entry removed", r"        'RelativeTimeParameterType': parameter_types\.RelativeTimeParameterType,\n", "", "R1.1")
+    sub(DEF, "registry entry removed", r"        'RelativeTimeParameterType': parameter_types\.RelativeTimeParameterType,\n", "", "R1")
     sub(DEF, "registry maps to the wrong class", r"'BooleanParameterType': parameter_types\.BooleanParameterType", "'BooleanParameterType': parameter_types.IntegerParameterType", "R1")
     sub(pt, "binary encoding not searched", r"                              encodings\.FloatDataEncoding,\n                              encodings\.BinaryDataEncoding\]:", "                              encodings.FloatDataEncoding]:", "R1")
     sub(enc, "polynomial default calibrator not searched", r"        for calibrator in \[calibrators\.SplineCalibrator,\n                           calibrators\.PolynomialCalibrator,", "        for calibrator in [calibrators.SplineCalibrator,", "R1")
@@ -561,6 +561,7 @@ SPEC = PropSpec(
     title="End-to-end decoding conforms to the XTCE document for every stream",
     check=check,
     floors={"R1.e2": 10, "R1.1": 15, "R1.2": 12, "R1.e": 12},
+    fallback={"R1.1": ("R1.e", "R1.e2"), "R1.2": ("R1.e", "R1.e2")},
     explanation=("Skeleton rules that hold for every document and stream: R1.1 the tag->class registry of parameter types and "
                  "the class lists tried for encodings and default calibrators contain every concrete class under its own "
                  "class name (the tag the writer emits); R1.2 every concrete parameter type / encoding resolves "
